@@ -34,7 +34,7 @@ def unify : Ty → Ty → Option Ty
     if a = b ∧ a.noErr then some a
     else if !a.hasName || !b.hasName then none
     else match a, b with
-      | .listOf x, .listOf y => unify x y
+      | .listOf x, .listOf y => (unify x y).map .listOf      -- the list of what the item types unify to (repair a9fb43a)
       | .listOf x, .list => some (.listOf x)
       | _, _ => none
 
